@@ -26,11 +26,12 @@ from vlib import core, corr
 from props import c05_tlsmsg
 from props import c05_paths
 
-GENERATORS = ["c05_tables", "c05_tls", "c05_paths"]
+GENERATORS = ["c05_tables", "c05_tls", "c05_paths", "c05_epochs"]
 DEPENDS = ["Frames", "ConnRecv", "FramesP", "ConnRecvP", "C05Tables(gen)", "StreamRecv", "RangeSet", "Base", "Tok", "C05",
            "TlsParse", "TlsRecv", "TlsParseP", "TlsRecvP", "TlsSitesP", "C05Tls(gen)", "TlsDispatch(gen)", "Codec", "TlsCodec",
            "ConnDgram", "ConnDgramP", "ConnClose", "ConnCloseP", "AfterCloseP", "Header", "HeaderProofs", "Varint", "Builder",
-           "BuilderProofs", "C13Consts(gen)", "Timers", "TimersSpec", "TimersP", "ConnPaths", "ConnPathsP", "C05Paths(gen)"]
+           "BuilderProofs", "C13Consts(gen)", "Timers", "TimersSpec", "TimersP", "ConnPaths", "ConnPathsP", "C05Paths(gen)",
+           "ConnEpochs", "ConnEpochsP", "C05Epochs(gen)"]
 TRUSTED_BASE = [
     "extraction (ExtrOcamlBasic only; Z kept inductive) + coq/extract/driver.ml for running the model",
     "tools/gen/c05_tables.py (ast reader of __frame_handlers / enums; output is compared with the running "
@@ -50,6 +51,13 @@ TRUSTED_BASE = [
     "(epoch, probing, newest, which challenge a PATH_RESPONSE matched) is model INPUT recorded by harness/props/c05_paths.Recorder "
     "through instance-level wrappers around receive_datagram / datagrams_to_send / connect / _payload_received and the qlog "
     "path-frame encoders; the table oracle peeks at _network_paths (labelled, trusted harness code)",
+    "epoch-keyed tables (coq/model/ConnEpochs.v): tools/gen/c05_epochs.py (ast reader: the keys _initialize creates, "
+    "_discard_epoch's body as a statement list the model interprets, the output_buf[Epoch.X] subscripts and Epoch.X call "
+    "arguments of tls.py, the listing of every statement / expression of connection.py that mentions one of the four dicts and "
+    "of every call of _initialize / _discard_epoch / _push_crypto_data / _close_end); the model is not extracted: its "
+    "prediction (theorem epoch_tables_total: the key lists of the four dicts stay the ones _initialize created) is compared "
+    "with the subject connection's dicts at the end of every oracle world (labelled peeks, trusted harness code); which "
+    "output buffers / traffic keys the TLS engine touches per call is over-approximated by ANY sub-list of the generated lists",
     "frame-layer model (ConnRecv.v) calls TlsRecv.crypto_deliver below the CRYPTO handler; in the frames tie the oracle records "
     "of the TLS layer are recorded from the real connection's tls.Context (c05_tlsmsg.Recorder; the transport-parameter verdict "
     "is the QuicConnectionError of the real _alpn_handler)",
@@ -889,9 +897,64 @@ def oracle_world(report, suite, case):
     return guarded_world(suite.split(":")[0], case, f)
 
 
+EPOCH_TIE = {"checked": 0, "uninitialised": 0, "disagreements": 0, "first": None, "generator": None}
+_EPOCH_KEYS = []
+_EPOCH_ATTRS = ("_cryptos", "_crypto_buffers", "_crypto_streams", "_spaces")
+
+
+def _epoch_init_keys():
+    """the key lists gen/C05Epochs.v was generated with (INIT_CRYPTOS .. INIT_SPACES), read again from the tree under test"""
+    if not _EPOCH_KEYS:
+        try:
+            import importlib.util
+            path = os.path.join(os.path.dirname(os.path.dirname(os.path.dirname(os.path.abspath(__file__)))),
+                                "tools", "gen", "c05_epochs.py")
+            sp_ = importlib.util.spec_from_file_location("c05_epochs_gen", path)
+            mod = importlib.util.module_from_spec(sp_)
+            sp_.loader.exec_module(mod)
+            _EPOCH_KEYS.append(mod.read()["keys"])
+        except Exception as e:          # the generator fails closed on this tree: nothing to compare with (proof violation)
+            EPOCH_TIE["generator"] = "%s: %s" % (type(e).__name__, str(e)[:200])
+            _EPOCH_KEYS.append(None)
+    return _EPOCH_KEYS[0]
+
+
+def _epoch_prog():
+    import importlib.util
+    path = os.path.join(os.path.dirname(os.path.dirname(os.path.dirname(os.path.abspath(__file__)))),
+                        "tools", "gen", "c05_epochs.py")
+    sp_ = importlib.util.spec_from_file_location("c05_epochs_gen2", path)
+    mod = importlib.util.module_from_spec(sp_)
+    sp_.loader.exec_module(mod)
+    return mod.read()["prog"]
+
+
+def epoch_tables_check(lab):
+    """The prediction of coq/props/C05.v `epoch_tables_total` on the implementation: once _initialize() has run, the key
+    lists of _cryptos / _crypto_buffers / _crypto_streams / _spaces are the ones _initialize creates -- after ANY history
+    (this world's).  A disagreement is a model/implementation difference (kind `correspondence`), reported at the end of run()."""
+    keys = _epoch_init_keys()
+    conn = getattr(getattr(lab, "subject", None), "conn", None)
+    if keys is None or conn is None:
+        return
+    got = {}
+    for a in _EPOCH_ATTRS:
+        got[a] = peek(lambda a=a: [int(k.value) for k in getattr(conn, a).keys()], None, "epoch-table %s" % a)
+    if all(v == [] for v in got.values()):
+        EPOCH_TIE["uninitialised"] += 1          # constructor state: _initialize has not run
+        return
+    EPOCH_TIE["checked"] += 1
+    if any(got[a] != keys[a] for a in _EPOCH_ATTRS):
+        EPOCH_TIE["disagreements"] += 1
+        if EPOCH_TIE["first"] is None:
+            EPOCH_TIE["first"] = {"spec": lab.spec, "side": lab.side, "state": lab.state,
+                                  "impl_keys": got, "model_keys": {a: keys[a] for a in _EPOCH_ATTRS}}
+
+
 def judge(lab):
     probs = []
     seen = set()
+    epoch_tables_check(lab)
     for r in lab.raised():
         sig = {"exception": r["exception"], "site": r["site"]}
         key = (r["exception"], r["site"])
@@ -2424,6 +2487,8 @@ def run(ctx):
     HARNESS_PROBLEMS.clear()
     PEEK_MISSES.clear()
     _FAILED.clear()
+    EPOCH_TIE.update(checked=0, uninitialised=0, disagreements=0, first=None, generator=None)
+    del _EPOCH_KEYS[:]
 
     def report(probs, case, suite):
         for what, sig in probs:
@@ -2583,6 +2648,39 @@ def run(ctx):
     phase("retry worlds")
 
     stats["frames_tls_layer"] = dict(FR_TLS)
+    # epoch-keyed tables: theorem epoch_tables_total's prediction against the subject's dicts, every oracle world
+    stats["epoch_tables_tie"] = {k: v for k, v in EPOCH_TIE.items() if k != "first"}
+    # the epoch-table obligations (discard_body_keeps: _discard_epoch removes no entry; key_facts_hold; epoch_sites_known; the
+    # generator's fail-closed shapes) broken on this tree are a `proof` violation of their own: harness/main.py reports a broken
+    # closure only when the search found no concrete failing input, and this one should be visible next to the replay
+    try:
+        broken = [b for b in ctx.broken_deps() if "ConnEpochs" in b or "C05Epochs" in b or "c05_epochs" in b]
+    except Exception:
+        broken = []
+    if broken:
+        log = (ctx.build or {}).get("log", "") or ""
+        i = log.find('File "./proofs/ConnEpochsP.v"')
+        if i < 0:
+            i = log.find('File "./model/ConnEpochs.v"')
+        if i < 0:
+            i = log.find("ConnEpochs")
+        ctx.violation("proof",
+                      "epochs: the proof obligations about the epoch-keyed dicts (coq/props/C05.v epoch_tables_total: after "
+                      "_initialize no subscript of _cryptos / _crypto_buffers / _crypto_streams / _spaces raises KeyError) no longer "
+                      "check against this tree: %s" % "; ".join(broken),
+                      None, signature={"suite": "epochs", "kind": "proof"},
+                      extra={"broken": broken, "coq_error": log[i:i + 600] if i >= 0 else "",
+                             "generated_discard_body": peek(lambda: _epoch_prog(), None, "epoch generator")},
+                      no_input=True)
+    if EPOCH_TIE["first"] is not None:
+        f_ = EPOCH_TIE["first"]
+        ctx.violation("correspondence",
+                      "epochs: after this world the key lists of the subject's epoch-keyed dicts are not the ones _initialize "
+                      "created (coq/props/C05.v epoch_tables_total predicts they are): %s" % json.dumps(f_["impl_keys"]),
+                      corr._short({"spec": f_["spec"]}, 4000), signature={"suite": "epochs", "kind": "correspondence"},
+                      extra={"impl_output": f_["impl_keys"], "model_output": f_["model_keys"], "correspondence": "epochs",
+                             "worlds_disagreeing": EPOCH_TIE["disagreements"], "worlds_checked": EPOCH_TIE["checked"]},
+                      no_input=True)
     # tolerance bookkeeping: labelled peeks that could not read the private state, harness exceptions per case
     misses = collections.Counter(PEEK_MISSES)
     misses.update(c05_tlsmsg.PEEK_MISSES)
